@@ -113,7 +113,7 @@ traffic_tick = st.lists(scen.sends, min_size=0, max_size=3)
 histories = st.fixed_dictionaries({
     "seed": st.integers(0, 2 ** 20),
     "flavour": st.sampled_from(["udp", "twisted"]),
-    "state": st.sampled_from(["connected", "connected", "connected", "temp"]),
+    "state": st.sampled_from(["connected", "connected", "connected", "temp", "client-disconnected", "client-disconnecting"]),
     "traffic": st.lists(traffic_tick, min_size=1, max_size=8),
     "link": scen.link_specs(max_loss=0.2, outages=False),
     "attacks": st.lists(st.tuples(st.integers(0, 6), attack).map(list), min_size=4, max_size=30),
@@ -424,11 +424,29 @@ def hist_body(ctx, c):
                     uid += 1
                     scen.do_send(w, ch, side, scen.resolve_size(sspec), retry, uid)
                 w.step(0.02)
+        closing = c["state"] in ("client-disconnected", "client-disconnecting")
+        if closing:
+            # the client endpoint keeps its key after its status left CONNECTED: it must keep discarding forgeries
+            link.healed()
+            w.run(0.3)
+            if c["state"] == "client-disconnected":
+                ch.udp.disconnect()                       # status DISCONNECTED, connection object and key retained
+            else:
+                sc0 = w.server_conn(ch.laddr)
+                w.on_server_thread(lambda: sc0.disconnect())
+                w.run(0.1, until=lambda: ch.conn.status.value != 2)     # DISCONNECT received: DISCONNECTING
+            if ch.conn is None or ch.conn.session_key_bytes is None or ch.connected():
+                ctx.label("closing-state-not-reached")
+                return injected
         for gap, a in c["attacks"]:
-            for _ in range(gap):
+            for _ in range(gap if not closing else min(gap, 1)):
                 w.step(0.02)
             if c["state"] == "temp":
                 a = dict(a, target="server")
+            if closing:
+                a = dict(a, target="client")
+                if ch.conn is None:
+                    break
             d, facts = build_attack(w, ch, atk, a)
             if d is None:
                 ctx.label("skipped-" + facts)
@@ -452,7 +470,12 @@ def hist_body(ctx, c):
                 ctx.nt(key)
         # heal and let everything settle
         link.healed()
-        if c["state"] == "temp":
+        if closing:
+            w.run(0.3)
+            final_oracle(ctx, w, ch, None, None, expect_up=False)
+            if ch.conn is not None and (ch.conn.session_key_bytes != key0 or ch.conn.token != token0 or ch.connected()):
+                ctx.violation("closed-session-revived", "client status %s, key changed: %s" % (ch.status(), ch.conn.session_key_bytes != key0))
+        elif c["state"] == "temp":
             w.run(0.3)
             final_oracle(ctx, w, ch, None, None, expect_up=False)
             if ch.laddr in w.ctxt.connections or any(e["ev"] == "connect" for e in w.events):
